@@ -10,6 +10,8 @@ for f in sys.argv[1:]:
     for b in re.split(r"^=== ", txt, flags=re.M)[1:]:
         head = b.split(" ")[0]
         sid = head.replace("/", "-").replace("-1p", "-1")
+        if sid.startswith("B"):
+            sid = sid[1:4] + "-B" + sid[-1]
         c = re.search(r"demo on clean tree: exit (\d+)", b); q = re.search(r"demo with patch:\s+exit (\d+)", b); t = re.search(r"baseline with patch: (\d+)/171", b)
         if c and q and t:
             rec = {"clean": int(c.group(1)), "patched": int(q.group(1)), "tests": int(t.group(1))}
